@@ -19,7 +19,7 @@ KINDS = ["I", "P", "D", "DSS", "x"]
 
 
 def gen_interval(rng, sign=None):
-    sign = sign or rng.choice(["pos", "neg", "straddle", "point", "zero_lo"])
+    sign = sign or rng.choice(["pos", "neg", "straddle", "point", "zero_lo", "zero_hi"])
     a, w = pbx.dyadic(rng, 0.25, 4.0), pbx.dyadic(rng, 0.0, 3.0)
     if sign == "pos":
         return (a, a + w)
@@ -29,6 +29,8 @@ def gen_interval(rng, sign=None):
         return (-a, w + 0.25)
     if sign == "zero_lo":
         return (0.0, a)
+    if sign == "zero_hi":
+        return (-a, 0.0)
     return (a, a) if rng.random() < 0.5 else (-a, -a)
 
 
@@ -134,9 +136,13 @@ def body(chk):
         flat.append((site, replay))
 
     # ---- A: intervals (and reals as point intervals) under every dependency ----
-    n_iv = 12 if chk.tier == "quick" else 120
+    # every ordered pairing of sign classes in every run (the routing of products and quotients has a branch per pairing, incl. an
+    # end point exactly at zero), then random pairings
+    SIGNS = ["pos", "neg", "straddle", "zero_lo", "zero_hi", "point"]
+    sign_pairs = [(sa, sb) for sa in SIGNS for sb in SIGNS]
+    n_iv = len(sign_pairs) + (0 if chk.tier == "quick" else 120)
     for it in range(n_iv):
-        a, b = gen_interval(rng), gen_interval(rng)
+        a, b = (gen_interval(rng, sign_pairs[it][0]), gen_interval(rng, sign_pairs[it][1])) if it < len(sign_pairs) else (gen_interval(rng), gen_interval(rng))
         for op in OPN:
             for d in "fpoi":
                 for mixed in (False, True):
@@ -155,7 +161,7 @@ def body(chk):
                         chk.report(site, f"{replay['expr']} fails: {out[2]}; interval arithmetic gives [{float(ref[0])}, {float(ref[1])}]", replay)
                     elif not const_eq(out, ref):
                         chk.report(site, f"{replay['expr']} = [{out[1][0]}..{out[1][-1]}, {out[2][0]}..{out[2][-1]}] is not the constant p-box of the interval result [{float(ref[0])}, {float(ref[1])}]", replay)
-                    if not mixed and (d != 'i' or it % 3 == 0):
+                    if not mixed and it % 3 == 0 and (d != 'i' or it % 9 == 0):
                         coq_case(op, d, view(A), view(B), out, site, replay)
 
     # ---- B: interval op precise distribution = the distribution shifted / scaled by the interval ----
